@@ -294,6 +294,20 @@ fn udp_grid(cx: &mut Cx, rng: &mut Rng) {
                 let got = matches!(guarded(|| client.decode(&mut b)), Ok(Some(_)));
                 cx.decide("ss2022-udp-response-client-session-id", m.name(), json!({"client_session_id": label, "users": n_users}), id == csid, got);
             }
+            // the same once more under the server session the client has just accepted a genuine answer from (it now keeps
+            // state for that server session): whom a datagram answers is a question for every datagram, not for the first one
+            let mut others: Vec<(String, u64)> = (0..64).map(|b| (format!("bit-{b}-flipped"), csid ^ (1u64 << b))).collect();
+            others.push(("another-session".into(), rng.next_u64()));
+            others.push(("zero".into(), 0));
+            others.push(("own".into(), csid));
+            for (label, id) in others {
+                pid += 1;
+                let p = ss::S22UdpPacket { session_id: 78, packet_id: pid, type_byte: 1, timestamp: NOW, client_session_id: Some(id), padding: vec![], addr: target.clone(), payload: b"a".to_vec() };
+                let w = ss::s22_udp_server_encode(m, &keys.psk, &p, &rng.arr());
+                let mut b = BytesMut::from(&w[..]);
+                let got = matches!(guarded(|| client.decode(&mut b)), Ok(Some(_)));
+                cx.decide("ss2022-udp-response-client-session-id-under-a-known-server-session", m.name(), json!({"client_session_id": label, "users": n_users}), id == csid, got);
+            }
         }
     }
 }
